@@ -289,7 +289,8 @@ func c18ZapLevel(l slog.Level) zapcore.Level {
 func propC18(t *rapid.T) {
 	sink := &memSink{}
 	th := zapcore.Level(rapid.IntRange(-1, 3).Draw(t, "coreThreshold"))
-	core := zapcore.NewCore(zapcore.NewJSONEncoder(c18Cfg), sink, th)
+	al := zap.NewAtomicLevelAt(th)
+	core := zapcore.NewCore(zapcore.NewJSONEncoder(c18Cfg), sink, al)
 	name := rapid.SampledFrom([]string{"", "svc"}).Draw(t, "handlerName")
 	var refBuf bytes.Buffer
 	refOpts := &slog.HandlerOptions{Level: slog.Level(-100), ReplaceAttr: func(groups []string, a slog.Attr) slog.Attr {
@@ -350,6 +351,11 @@ func propC18(t *rapid.T) {
 	order := append(rapid.Permutation(nodes).Draw(t, "order"), rapid.Permutation(nodes).Draw(t, "order2")...)
 	emptyViaValuer := false
 	for _, n := range order {
+		if rapid.IntRange(0, 3).Draw(t, "changeCoreLevel") == 0 {
+			// the core's level may change after handlers were built and derived
+			th = zapcore.Level(rapid.IntRange(-1, 3).Draw(t, "newCoreThreshold"))
+			al.SetLevel(th)
+		}
 		lvl := slog.Level(rapid.IntRange(-8, 12).Draw(t, "slogLevel"))
 		zl := c18ZapLevel(lvl)
 		msg := genStr().Draw(t, "msg")
